@@ -159,7 +159,18 @@ pub fn record_run(run: usize, seed: u64) -> (Vec<Value>, Vec<Value>) {
             let from = rng.gen_range(0..toks.len());
             let unv = rng.gen_bool(0.5);
             let nk = keys::keypair(&format!("n{run}_{step}"), "ed");
-            let src_u = if unv { Some(UnverifiedBiscuit::from(toks[from].to_vec()).unwrap()) } else { None };
+            let src_u = if unv {
+                match UnverifiedBiscuit::from(toks[from].to_vec()) {
+                    Ok(u) => Some(u),
+                    Err(e) => {
+                        // already reported when that token was produced; its run is broken for the trace spec
+                        direct.push(json!({"run": run, "step": step, "problem": format!("a token produced by the API does not reload: {e:?}")}));
+                        break;
+                    }
+                }
+            } else {
+                None
+            };
             let choice = rng.gen_range(0..100);
             if choice < 45 {
                 let r = match (&src_u, &toks[from]) {
